@@ -271,10 +271,12 @@ fn one_case(d: &mut Draw, thorough: bool) -> Outcome {
         },
         multi_sources: true,
         deps: true,
+        dep_weights: [5, 3, 3],
         std_per_mille: 80,
         collide_per_mille: 40,
         ensure_wildcard: false,
         single_def_per_mille: 850,
+        unify_generics_per_mille: 0,
     };
     let p = gen_p2(d, &opts);
     let ws = Workspace::new("c25", &p.root.cfg.name);
@@ -677,7 +679,7 @@ pub fn run(ctx: &Ctx) {
         println!("INCONCLUSIVE property={}: cannot expand the standard library: {e}", ctx.id);
         std::process::exit(2);
     }
-    let mut n = ctx.scale(260, 10_000);
+    let mut n = ctx.scale(200, 10_000);
     if let Some(k) = std::env::var("VERIF_C25_CASES").ok().and_then(|x| x.parse().ok()) {
         n = k; // development aid
     }
